@@ -824,7 +824,11 @@ func (ex *Exec) indexVal(st *State, base, idx *Val, at ast.Node) *Val {
 	if base.ArrField != nil {
 		arr := base.ArrField.Type().Underlying().(*types.Array)
 		ex.boundsCheck(st, idxT, intLit(arr.Len()), where)
-		return tv(elemRefTerm(base.T, base.ArrOwner, base.ArrField, idxT), arr.Elem())
+		er := elemRefTerm(base.T, base.ArrOwner, base.ArrField, idxT)
+		// an element of an array field is part of its (non-nil) owner: its address is not nil and has the element's pointer type
+		ex.assume(st, tImp(tNot(tEq(base.T, intLit(0))), tNot(tEq(er, intLit(0)))))
+		ex.assume(st, ex.ptrTypeFact(er, types.NewPointer(arr.Elem())))
+		return tv(er, arr.Elem())
 	}
 	var elemT types.Type
 	if base.GoT != nil {
@@ -1195,6 +1199,20 @@ func (ex *Exec) binop(st *State, op string, l, r *Val, lt types.Type, where stri
 	switch op {
 	case "==", "!=":
 		var eq *Term
+		if l.T.S.IsSlice != r.T.S.IsSlice && (l.T.S.IsSlice || r.T.S.IsSlice) {
+			// slice == nil: nil-ness of a slice is not part of the slice model; it is an uninterpreted predicate that
+			// implies length 0 (sound: every nil slice is empty, an empty slice may or may not be nil)
+			sl := l
+			if r.T.S.IsSlice {
+				sl = r
+			}
+			isnil := mk("isnil_"+sl.T.S.Name, SBool, sl.T)
+			ex.assume(st, tImp(isnil, tEq(ex.sliceLen(sl.T), intLit(0))))
+			if op == "!=" {
+				isnil = tNot(isnil)
+			}
+			return tv(isnil, boolT)
+		}
 		if l.T.S.Kind == KReal {
 			eq = cmpCls("=", l, r)
 		} else {
@@ -1273,7 +1291,28 @@ func (ex *Exec) execBlock(st *State, stmts []ast.Stmt) *Flow {
 	return fl
 }
 
+// dropScoped removes the locals declared inside the compound statement s from a state that has left it: a name in a
+// contract always denotes the variable that is in scope at that program point, never a shadowing one of a finished
+// inner block (`j` of the outer loop vs `for j := ...` of an inner loop in rRect.chooseLeastEnlargement).
+func dropScoped(st *State, s ast.Stmt) {
+	for obj := range st.vars {
+		if obj.Pos() > s.Pos() && obj.Pos() < s.End() {
+			if v, isVar := obj.(*types.Var); isVar && !v.IsField() {
+				delete(st.vars, obj)
+			}
+		}
+	}
+}
+
 func (ex *Exec) execStmt(st *State, s ast.Stmt) (fl *Flow) {
+	switch s.(type) {
+	case *ast.IfStmt, *ast.ForStmt, *ast.RangeStmt, *ast.SwitchStmt, *ast.TypeSwitchStmt, *ast.BlockStmt:
+		defer func() {
+			if fl != nil && fl.normal != nil {
+				dropScoped(fl.normal, s)
+			}
+		}()
+	}
 	if ex.fc != nil && len(ex.fc.StmtHints) > 0 {
 		if _, isBlock := s.(*ast.BlockStmt); !isBlock {
 			p := ex.w.Fset.Position(s.Pos())
